@@ -7,6 +7,15 @@ TB_COMMON = [
 ]
 
 HARNESSES = {
+    "race": {
+        "module": "grpcgcp", "pkg": ".", "test": "TestVerifRace.*",
+        "files": ["harness/grpcgcp/zz_verif_race_test.go", "harness/grpcgcp/zz_verif_gme_test.go", "harness/grpcgcp/zz_verif_pool_test.go"],
+        "extra_files": {"multiendpoint/zz_verif_dump.go": "harness/multiendpoint/zz_verif_dump.go"},
+        "buildflags": ["-race"],
+        "corpus_glob": "*.ops", "corpus_dirs": [],
+        "episode_start": r"^race ",
+        "tiers": {"quick": {"episodes": 1}, "thorough": {"episodes": 1, "seeds": 6}},
+    },
     "gme": {
         "module": "grpcgcp", "pkg": ".", "test": "TestVerifGME",
         "files": ["harness/grpcgcp/zz_verif_gme_test.go", "harness/grpcgcp/zz_verif_pool_test.go"], "rewrite": "vclock",
